@@ -17,12 +17,12 @@
 //!    left in the queue when all threads have finished and no handle is alive;
 //!  * timing (finding F11a): a task enqueued while blocking is not re-dispatched before blocking
 //!    became false, unless an explicit `stop_blocking()` did it.
-use crossbeam_channel::{unbounded, Receiver, RecvTimeoutError, Sender};
+use crossbeam_channel::{unbounded, Receiver, Sender};
 use serde_json::json;
-use std::cell::RefCell;
+use std::cell::{Cell, RefCell};
 use std::collections::BTreeSet;
 use std::sync::atomic::{AtomicBool, Ordering};
-use std::sync::{Arc, Mutex};
+use std::sync::{Arc, Condvar, Mutex, MutexGuard};
 use std::time::Duration;
 use umharness::util::*;
 use undermoon::common::verif_hook::set_point_hook;
@@ -246,58 +246,89 @@ impl Config {
 
 // ---------------------------------------------------------------------------------------------
 // thread <-> scheduler plumbing
+//
+// Baton passing: the thread that arrives at a scheduling point records the observable of the step
+// it has just finished, asks the schedule (`Chooser`) who runs next and either continues itself
+// (no context switch) or wakes the chosen thread and blocks.  Exactly one thread runs at a time.
+// The main thread only starts the case, watches for progress (timeout = harness failure) and
+// evaluates the end-of-case oracle.
 // ---------------------------------------------------------------------------------------------
 
-enum Msg {
-    Parked(usize, &'static str),
-    Ret(usize, String),
-    Polled(usize, bool),
-    /// controller starts executing command `c` (bookkeeping for the timing oracle)
-    Cmd(usize, char),
-    Finished(usize),
-    Panicked(usize),
+/// (point each thread is parked at / None = finished, enabled threads) -> next thread;
+/// `None` = abandon the schedule (all threads are released and finish on their own)
+type Chooser = Box<dyn FnMut(&[Option<&'static str>], &[usize]) -> Option<usize> + Send>;
+
+#[derive(PartialEq, Clone, Copy)]
+enum Phase {
+    Init,
+    Run,
+    Abandoned,
+    Done,
 }
 
-struct Ctx {
-    tx: Sender<Msg>,
-    go: Vec<Receiver<()>>,
-    /// set when the scheduler abandons a schedule: threads stop parking and run to completion
+enum Note {
+    Ret(String),
+    Polled(bool),
+    /// controller starts executing command `c` (bookkeeping for the timing oracle)
+    Cmd(char),
+    Panic,
+}
+
+struct Core {
+    phase: Phase,
+    /// point each thread is parked at; None = finished
+    at: Vec<Option<&'static str>>,
+    registered: Vec<bool>,
+    live: usize,
+    /// controller: command being executed
+    cur_cmd: Vec<char>,
+    running: Option<usize>,
+    from: &'static str,
+    parts: Vec<String>,
+    was_closed: bool,
+    steps: Vec<usize>,
+    lines: Vec<(String, String)>,
+    chooser: Option<Chooser>,
+    abandoned: bool,
+    // ---- oracle state ----
+    closed: bool,
+    enq_open: Vec<bool>,
+    handed: Vec<Vec<bool>>,
+    redisp: Vec<u32>,
+    rets: Vec<Vec<String>>,
+    saw_closed: bool,
+    sender_steps_while_closed: u32,
+    failures: Vec<(String, &'static str)>,
+}
+
+struct Shared {
+    cfg: Config,
+    core: Mutex<Core>,
+    cv: Condvar,
+    gate_tx: Vec<Sender<()>>,
+    gate_rx: Vec<Receiver<()>>,
+    /// set when a schedule is abandoned: threads stop parking and run to completion
     free_run: AtomicBool,
+    queue: Arc<Queue>,
+    rec: Arc<Rec>,
 }
 
 thread_local! {
-    static CTX: RefCell<Option<(usize, Arc<Ctx>)>> = const { RefCell::new(None) };
+    static CTX: RefCell<Option<(usize, Arc<Shared>)>> = const { RefCell::new(None) };
+    /// set while this thread reads the public observables on behalf of the scheduler
+    static PASS: Cell<bool> = const { Cell::new(false) };
 }
 
 fn hook(point: &'static str) {
+    if PASS.with(|p| p.get()) {
+        return;
+    }
     let me = CTX.with(|c| c.borrow().clone());
-    if let Some((tid, ctx)) = me {
-        if ctx.free_run.load(Ordering::SeqCst) {
+    if let Some((tid, sh)) = me {
+        if sh.free_run.load(Ordering::SeqCst) {
             return;
         }
-        let _ = ctx.tx.send(Msg::Parked(tid, point));
-        // wait for the scheduler; if it is gone (harness failure path) just run on
-        if let Some(g) = ctx.go.get(tid) {
-            // hand-offs are short: spin / yield briefly before blocking (keeps the run time
-            // reasonable when the machine is oversubscribed)
-            let mut n = 0u32;
-            loop {
-                match g.try_recv() {
-                    Ok(()) => break,
-                    Err(crossbeam_channel::TryRecvError::Disconnected) => break,
-                    Err(crossbeam_channel::TryRecvError::Empty) => {}
-                }
-                n += 1;
-                if n < 3000 {
-                    std::hint::spin_loop();
-                } else if n < 3200 {
-                    std::thread::yield_now();
-                } else {
-                    let _ = g.recv();
-                    break;
-                }
-            }
-        }
+        sh.arrive(tid, Some(point));
     }
 }
 
@@ -306,168 +337,46 @@ fn harness_failure(what: &str) -> ! {
     std::process::exit(3);
 }
 
-/// One live execution of the real code under the scheduler.
-struct Exec {
-    cfg: Config,
-    queue: Arc<Queue>,
-    rec: Arc<Rec>,
-    ctx: Arc<Ctx>,
-    rx: Receiver<Msg>,
-    go_tx: Vec<Sender<()>>,
-    joins: Vec<Option<std::thread::JoinHandle<Option<BlockingHandle<RecRedisp>>>>>,
-    /// point each thread is parked at; None = finished
-    at: Vec<Option<&'static str>>,
-    /// controller: command being executed
-    cur_cmd: Vec<char>,
-    // ---- oracle state ----
-    closed: bool,
-    enq_open: Vec<bool>,
-    handed: Vec<Vec<bool>>,
-    redisp: Vec<u32>,
-    rets: Vec<Vec<String>>,
-    pub saw_closed: bool,
-    pub sender_steps_while_closed: u32,
-    pub failures: Vec<(String, &'static str)>,
-    pub log: Vec<String>,
+enum Decision {
+    Go(usize),
+    Abandon,
+    Done,
 }
 
-struct StepOut {
-    obs: String,
-}
-
-impl Exec {
-    fn start(cfg: &Config) -> (Exec, String) {
-        let k = cfg.senders.len();
-        let n = cfg.nthreads();
-        let rec = Arc::new(Rec {
-            events: Mutex::new(vec![]),
-            inflight: Mutex::new((0..k).map(|_| None).collect()),
-            inner_ok: cfg.senders.iter().map(|s| s.1).collect(),
-        });
-        let map = Arc::new(BlockingMap::new(
-            RecInnerFactory(rec.clone()),
-            Arc::new(RecRedisp(rec.clone())),
-        ));
-        let factory = TaskBlockingQueueSenderFactory::new(map.clone());
-        let sender: Arc<QSender> = Arc::new(factory.create("backend".to_string()));
-        let queue: Arc<Queue> = map.get_blocking_queue("backend".to_string());
-        let (tx, rx) = unbounded::<Msg>();
-        let mut go_tx = vec![];
-        let mut go_rx = vec![];
-        for _ in 0..n {
-            let (a, b) = unbounded::<()>();
-            go_tx.push(a);
-            go_rx.push(b);
-        }
-        let ctx = Arc::new(Ctx { tx: tx.clone(), go: go_rx, free_run: AtomicBool::new(false) });
-        let mut ex = Exec {
-            cfg: cfg.clone(),
-            queue: queue.clone(),
-            rec: rec.clone(),
-            ctx: ctx.clone(),
-            rx,
-            go_tx,
-            joins: vec![],
-            at: vec![None; n],
-            cur_cmd: vec![' '; n],
-            closed: false,
-            enq_open: vec![false; k],
-            handed: vec![vec![]; k],
-            redisp: vec![0; k],
-            rets: vec![vec![]; k],
-            saw_closed: false,
-            sender_steps_while_closed: 0,
-            failures: vec![],
-            log: vec![],
-        };
-        for t in 0..n {
-            let ctx = ctx.clone();
-            let tx = tx.clone();
-            let b = std::thread::Builder::new().stack_size(256 * 1024);
-            let jh = if t < k {
-                let (hint, _) = cfg.senders[t];
-                let sender = sender.clone();
-                let rec = rec.clone();
-                b.spawn(move || {
-                    CTX.with(|c| *c.borrow_mut() = Some((t, ctx)));
-                    let r = std::panic::catch_unwind(std::panic::AssertUnwindSafe(|| {
-                        let res = sender.send(BlockingHintTask::new(HTask { id: t }, hint.real()));
-                        let text = match res {
-                            Ok(()) => "ret:ok".to_string(),
-                            Err(SenderBackendError::Retry(task)) => {
-                                let h = task.get_blocking_hint();
-                                let inner = task.into_inner();
-                                if inner.id == t && hint.same(h) {
-                                    "ret:retry".to_string()
-                                } else {
-                                    "ret:retry-corrupt".to_string()
-                                }
-                            }
-                            Err(e) => format!("ret:err:{:?}", e),
-                        };
-                        let _ = tx.send(Msg::Ret(t, text));
-                        // the backend's reply: the CounterTask is dropped
-                        let ct = rec.inflight.lock().expect("inflight").get_mut(t).and_then(|s| s.take());
-                        drop(ct);
-                    }));
-                    let _ = tx.send(if r.is_ok() { Msg::Finished(t) } else { Msg::Panicked(t) });
-                    CTX.with(|c| *c.borrow_mut() = None);
-                    None
-                })
-            } else {
-                let prog = cfg.ctrls[t - k].clone();
-                let queue = queue.clone();
-                b.spawn(move || {
-                    CTX.with(|c| *c.borrow_mut() = Some((t, ctx)));
-                    let mut handle: Option<BlockingHandle<RecRedisp>> = None;
-                    let r = std::panic::catch_unwind(std::panic::AssertUnwindSafe(|| {
-                        for cmd in prog {
-                            match cmd {
-                                'S' => {
-                                    if handle.is_none() {
-                                        let _ = tx.send(Msg::Cmd(t, 'S'));
-                                        handle = Some(queue.start_blocking());
-                                    }
-                                }
-                                'P' => {
-                                    let _ = tx.send(Msg::Cmd(t, 'P'));
-                                    let b = queue.blocking_done();
-                                    let _ = tx.send(Msg::Polled(t, b));
-                                }
-                                'D' => {
-                                    if let Some(h) = handle.take() {
-                                        let _ = tx.send(Msg::Cmd(t, 'D'));
-                                        drop(h);
-                                    }
-                                }
-                                _ => {
-                                    let _ = tx.send(Msg::Cmd(t, 'R'));
-                                    queue.stop_blocking();
-                                }
-                            }
-                        }
-                    }));
-                    let _ = tx.send(if r.is_ok() { Msg::Finished(t) } else { Msg::Panicked(t) });
-                    CTX.with(|c| *c.borrow_mut() = None);
-                    // a handle that the program never drops stays alive until the end of the case
-                    handle
-                })
-            };
-            ex.joins.push(Some(jh.unwrap_or_else(|e| harness_failure(&format!("spawn: {}", e)))));
-            // run the new thread to its first scheduling point
-            let _ = ex.wait_thread(t, None);
-        }
-        let pos: Vec<String> = (0..n)
-            .map(|t| format!("{}@{}", cfg.tid_name(t), ex.at[t].unwrap_or("end")))
-            .collect();
-        let line = format!("ok at={} {}", pos.join(","), ex.globals().0);
-        (ex, line)
+impl Shared {
+    fn lock(&self) -> MutexGuard<'_, Core> {
+        self.core.lock().unwrap_or_else(|e| e.into_inner())
     }
 
-    /// public observables, read by the scheduler thread (its hook calls pass straight through)
+    fn wait_gate(&self, tid: usize) {
+        if let Some(g) = self.gate_rx.get(tid) {
+            // hand-offs are short: spin / yield briefly before blocking
+            let mut n = 0u32;
+            loop {
+                match g.try_recv() {
+                    Ok(()) => break,
+                    Err(crossbeam_channel::TryRecvError::Disconnected) => break,
+                    Err(crossbeam_channel::TryRecvError::Empty) => {}
+                }
+                n += 1;
+                if n < 2000 {
+                    std::hint::spin_loop();
+                } else if n < 2100 {
+                    std::thread::yield_now();
+                } else {
+                    let _ = g.recv();
+                    break;
+                }
+            }
+        }
+    }
+
+    /// public observables (`blocking_done()`, `get_blocking_state()`); hook calls pass through
     fn globals(&self) -> (String, bool, bool) {
+        let old = PASS.with(|p| p.replace(true));
         let done = self.queue.blocking_done();
         let st = self.queue.get_blocking_state();
+        PASS.with(|p| p.set(old));
         (
             format!("done={} blk={} term={}", if done { 1 } else { 0 }, if st.blocking { 1 } else { 0 }, st.term),
             done,
@@ -475,79 +384,148 @@ impl Exec {
         )
     }
 
-    /// wait until thread `t` parks again or finishes; returns ret / polled strings seen on the way
-    fn wait_thread(&mut self, t: usize, _from: Option<&'static str>) -> Vec<String> {
-        let mut parts = vec![];
-        loop {
-            let mut n = 0u32;
-            let msg = loop {
-                match self.rx.try_recv() {
-                    Ok(m) => break Ok(m),
-                    Err(crossbeam_channel::TryRecvError::Disconnected) => break Err(RecvTimeoutError::Disconnected),
-                    Err(crossbeam_channel::TryRecvError::Empty) => {}
+    fn note(&self, tid: usize, n: Note) {
+        let mut core = self.lock();
+        match n {
+            Note::Cmd(c) => core.cur_cmd[tid] = c,
+            Note::Ret(s) => {
+                core.rets[tid].push(s.clone());
+                if core.phase == Phase::Run {
+                    core.parts.push(s);
                 }
-                n += 1;
-                if n < 3000 {
-                    std::hint::spin_loop();
-                } else if n < 3200 {
-                    std::thread::yield_now();
+            }
+            Note::Polled(b) => {
+                if core.phase == Phase::Run {
+                    core.parts.push(format!("polled:{}", if b { 1 } else { 0 }));
+                }
+            }
+            Note::Panic => {
+                if core.phase == Phase::Run {
+                    core.parts.push("PANIC".to_string());
                 } else {
-                    break self.rx.recv_timeout(STEP_TIMEOUT);
+                    let name = self.cfg.tid_name(tid);
+                    core.failures.push((format!("thread {} panicked", name), ""));
                 }
-            };
-            match msg {
-                Ok(Msg::Parked(u, p)) if u == t => {
-                    self.at[t] = Some(p);
-                    return parts;
-                }
-                Ok(Msg::Finished(u)) if u == t => {
-                    self.at[t] = None;
-                    return parts;
-                }
-                Ok(Msg::Panicked(u)) if u == t => {
-                    self.at[t] = None;
-                    parts.push("PANIC".to_string());
-                    return parts;
-                }
-                Ok(Msg::Ret(u, s)) if u == t => {
-                    self.rets[t].push(s.clone());
-                    parts.push(s);
-                }
-                Ok(Msg::Polled(u, b)) if u == t => parts.push(format!("polled:{}", if b { 1 } else { 0 })),
-                Ok(Msg::Cmd(u, c)) if u == t => self.cur_cmd[t] = c,
-                Ok(_) => harness_failure(&format!(
-                    "a thread other than {} ran while it was not scheduled ({})",
-                    self.cfg.tid_name(t),
-                    self.cfg.text()
-                )),
-                Err(RecvTimeoutError::Timeout) => harness_failure(&format!(
-                    "thread {} did not reach a scheduling point within {:?} ({}; schedule so far: {})",
-                    self.cfg.tid_name(t),
-                    STEP_TIMEOUT,
-                    self.cfg.text(),
-                    self.log.join(" ; ")
-                )),
-                Err(RecvTimeoutError::Disconnected) => harness_failure("scheduler channel disconnected"),
             }
         }
     }
 
-    fn enabled(&self) -> Vec<usize> {
-        (0..self.at.len()).filter(|t| self.at[*t].is_some()).collect()
+    fn begin_step(&self, core: &mut Core, u: usize) {
+        core.running = Some(u);
+        core.from = core.at.get(u).copied().flatten().unwrap_or("end");
+        core.parts.clear();
+        core.was_closed = core.closed;
     }
 
-    /// release thread `t` for one atomic operation; returns the observable line
-    fn step(&mut self, t: usize) -> StepOut {
-        let k = self.cfg.senders.len();
-        let from = match self.at.get(t).copied().flatten() {
-            Some(p) => p,
-            None => return StepOut { obs: "stuck".to_string() },
-        };
-        let was_closed = self.closed;
-        if self.go_tx[t].send(()).is_err() {
-            harness_failure("gate closed");
+    fn decide(&self, core: &mut Core) -> Decision {
+        let en: Vec<usize> = (0..core.at.len()).filter(|t| core.at[*t].is_some()).collect();
+        if en.is_empty() {
+            return Decision::Done;
         }
-        let parts = self.wait_thread(t, Some(from));
+        let mut ch = match core.chooser.take() {
+            Some(c) => c,
+            None => harness_failure("no schedule installed"),
+        };
+        let r = ch(&core.at, &en);
+        core.chooser = Some(ch);
+        match r {
+            Some(u) if en.contains(&u) => Decision::Go(u),
+            Some(u) => harness_failure(&format!("schedule chose thread {} which is not enabled", u)),
+            None => Decision::Abandon,
+        }
+    }
+
+    /// apply a decision; returns the thread to wake (if it is not `me`)
+    fn apply(&self, core: &mut Core, d: Decision, me: Option<usize>) -> Option<usize> {
+        match d {
+            Decision::Done => {
+                core.phase = Phase::Done;
+                core.running = None;
+                self.cv.notify_all();
+                None
+            }
+            Decision::Abandon => {
+                core.phase = Phase::Abandoned;
+                core.abandoned = true;
+                core.running = None;
+                self.free_run.store(true, Ordering::SeqCst);
+                for t in 0..core.at.len() {
+                    if core.at[t].is_some() && Some(t) != me {
+                        let _ = self.gate_tx[t].send(());
+                    }
+                }
+                self.cv.notify_all();
+                None
+            }
+            Decision::Go(u) => {
+                self.begin_step(core, u);
+                if Some(u) == me {
+                    None
+                } else {
+                    Some(u)
+                }
+            }
+        }
+    }
+
+    /// thread `tid` reached scheduling point `point` (None: it has finished)
+    fn arrive(&self, tid: usize, point: Option<&'static str>) {
+        let mut core = self.lock();
+        match core.phase {
+            Phase::Init => {
+                core.at[tid] = point;
+                core.registered[tid] = true;
+                if point.is_none() {
+                    core.live -= 1;
+                }
+                self.cv.notify_all();
+                drop(core);
+                if point.is_some() {
+                    self.wait_gate(tid);
+                }
+                return;
+            }
+            Phase::Abandoned | Phase::Done => {
+                if point.is_none() {
+                    core.at[tid] = None;
+                    core.live -= 1;
+                    self.cv.notify_all();
+                }
+                return;
+            }
+            Phase::Run => {}
+        }
+        if core.running != Some(tid) {
+            harness_failure(&format!(
+                "thread {} ran while it was not scheduled ({})",
+                self.cfg.tid_name(tid),
+                self.cfg.text()
+            ));
+        }
+        core.at[tid] = point;
+        if point.is_none() {
+            core.live -= 1;
+        }
+        self.complete_step(&mut core, tid);
+        let d = self.decide(&mut core);
+        let abandon = matches!(d, Decision::Abandon);
+        let wake = self.apply(&mut core, d, Some(tid));
+        let keep_running = !abandon && wake.is_none() && core.running == Some(tid);
+        drop(core);
+        if let Some(u) = wake {
+            let _ = self.gate_tx[u].send(());
+        }
+        if point.is_some() && !keep_running && !abandon {
+            self.wait_gate(tid);
+        }
+    }
+
+    /// the step of `t` that started at `core.from` is over: observable line + oracle bookkeeping
+    fn complete_step(&self, core: &mut Core, t: usize) {
+        let k = self.cfg.senders.len();
+        let from = core.from;
+        let was_closed = core.was_closed;
+        let parts = std::mem::take(&mut core.parts);
         let evs: Vec<Ev> = std::mem::take(&mut *self.rec.events.lock().expect("events"));
         let (gtext, done, blk) = self.globals();
         let mut obs: Vec<String> = vec![];
@@ -555,11 +533,11 @@ impl Exec {
             match e {
                 Ev::Handed(i, ok) => {
                     obs.push(format!("handed:{}:{}", i, if *ok { "ok" } else { "err" }));
-                    if let Some(h) = self.handed.get_mut(*i) {
+                    if let Some(h) = core.handed.get_mut(*i) {
                         h.push(*ok);
                     }
                     if was_closed {
-                        self.failures.push((
+                        core.failures.push((
                             format!("barrier: task {} handed to the backend after blocking_done was observed and before blocking was lifted", i),
                             "",
                         ));
@@ -567,14 +545,14 @@ impl Exec {
                 }
                 Ev::Redisp(u) => {
                     obs.push(format!("redisp:{}", u));
-                    if let Some(r) = self.redisp.get_mut(*u) {
+                    if let Some(r) = core.redisp.get_mut(*u) {
                         *r += 1;
                     }
-                    if self.enq_open.get(*u).copied().unwrap_or(false) {
-                        if self.cur_cmd[t] == 'R' {
+                    if core.enq_open.get(*u).copied().unwrap_or(false) {
+                        if core.cur_cmd[t] == 'R' {
                             // explicit stop_blocking(): flushing is what was asked for
                         } else {
-                            self.failures.push((
+                            core.failures.push((
                                 format!("timing: task {} was queued while blocking and re-dispatched by a stale release_all before blocking was lifted", u),
                                 "F11a",
                             ));
@@ -590,7 +568,7 @@ impl Exec {
                 // blocking was true when this sender decided to enqueue; if it still is, the
                 // task must wait for the end of this blocking window
                 if blk {
-                    self.enq_open[t] = true;
+                    core.enq_open[t] = true;
                 }
             } else {
                 obs.push("tau".to_string());
@@ -598,125 +576,314 @@ impl Exec {
         }
         // oracle bookkeeping on the public observables
         if !blk {
-            self.closed = false;
-            for e in self.enq_open.iter_mut() {
+            core.closed = false;
+            for e in core.enq_open.iter_mut() {
                 *e = false;
             }
         }
         if done && blk {
-            self.closed = true;
-            self.saw_closed = true;
+            core.closed = true;
+            core.saw_closed = true;
         }
         if was_closed && t < k {
-            self.sender_steps_while_closed += 1;
+            core.sender_steps_while_closed += 1;
         }
-        let line = format!("{} @{} {}", obs.join("+"), self.at[t].unwrap_or("end"), gtext);
-        StepOut { obs: line }
-    }
-
-    /// stop scheduling: every parked thread is released and runs (truly concurrently) to its end.
-    /// Events of this tail are still subject to the end-of-case oracle, not to the barrier oracle.
-    fn abandon(&mut self) {
-        self.ctx.free_run.store(true, Ordering::SeqCst);
-        let mut live = 0;
-        for t in 0..self.at.len() {
-            if self.at[t].is_some() {
-                live += 1;
-                let _ = self.go_tx[t].send(());
-            }
-        }
-        while live > 0 {
-            match self.rx.recv_timeout(STEP_TIMEOUT) {
-                Ok(Msg::Finished(t)) => {
-                    self.at[t] = None;
-                    live -= 1;
-                }
-                Ok(Msg::Panicked(t)) => {
-                    self.at[t] = None;
-                    live -= 1;
-                    self.failures.push((format!("thread {} panicked", self.cfg.tid_name(t)), ""));
-                }
-                Ok(Msg::Ret(t, s)) => self.rets[t].push(s),
-                Ok(_) => {}
-                Err(_) => harness_failure(&format!("free-running threads did not finish within {:?} ({})", STEP_TIMEOUT, self.cfg.text())),
-            }
-        }
-        let evs: Vec<Ev> = std::mem::take(&mut *self.rec.events.lock().expect("events"));
-        for e in evs {
-            match e {
-                Ev::Handed(i, ok) => {
-                    if let Some(h) = self.handed.get_mut(i) {
-                        h.push(ok);
-                    }
-                }
-                Ev::Redisp(u) => {
-                    if let Some(r) = self.redisp.get_mut(u) {
-                        *r += 1;
-                    }
-                }
-            }
+        let line = format!("{} @{} {}", obs.join("+"), core.at[t].unwrap_or("end"), gtext);
+        core.lines.push((self.cfg.tid_text(t), line));
+        core.steps.push(t);
+        if core.steps.len() > 5000 {
+            harness_failure("schedule longer than 5000 steps (CAS livelock in the scheduler?)");
         }
     }
+}
 
-    /// all threads have finished: end-of-case oracle, cleanup
-    fn finish(mut self) -> Vec<(String, &'static str)> {
-        let k = self.cfg.senders.len();
-        let mut leaked = vec![];
-        for j in self.joins.iter_mut() {
-            if let Some(h) = j.take() {
-                match h.join() {
-                    Ok(Some(handle)) => leaked.push(handle),
-                    Ok(None) => {}
-                    Err(_) => self.failures.push(("a harness thread panicked outside the code under test".to_string(), "")),
+struct CaseOut {
+    init_line: String,
+    lines: Vec<(String, String)>,
+    steps: Vec<usize>,
+    abandoned: bool,
+    saw_closed: bool,
+    sender_steps_while_closed: u32,
+    handed: Vec<Vec<bool>>,
+    redisp: Vec<u32>,
+    rets: Vec<Vec<String>>,
+    failures: Vec<(String, &'static str)>,
+}
+
+/// One execution of the real code under the schedule `chooser`.
+fn run_case(cfg: &Config, chooser: Chooser) -> CaseOut {
+    let k = cfg.senders.len();
+    let n = cfg.nthreads();
+    let rec = Arc::new(Rec {
+        events: Mutex::new(vec![]),
+        inflight: Mutex::new((0..k).map(|_| None).collect()),
+        inner_ok: cfg.senders.iter().map(|s| s.1).collect(),
+    });
+    let map = Arc::new(BlockingMap::new(
+        RecInnerFactory(rec.clone()),
+        Arc::new(RecRedisp(rec.clone())),
+    ));
+    let factory = TaskBlockingQueueSenderFactory::new(map.clone());
+    let sender: Arc<QSender> = Arc::new(factory.create("backend".to_string()));
+    let queue: Arc<Queue> = map.get_blocking_queue("backend".to_string());
+    let mut gate_tx = vec![];
+    let mut gate_rx = vec![];
+    for _ in 0..n {
+        let (a, b) = unbounded::<()>();
+        gate_tx.push(a);
+        gate_rx.push(b);
+    }
+    let sh = Arc::new(Shared {
+        cfg: cfg.clone(),
+        core: Mutex::new(Core {
+            phase: Phase::Init,
+            at: vec![None; n],
+            registered: vec![false; n],
+            live: n,
+            cur_cmd: vec![' '; n],
+            running: None,
+            from: "end",
+            parts: vec![],
+            was_closed: false,
+            steps: vec![],
+            lines: vec![],
+            chooser: Some(chooser),
+            abandoned: false,
+            closed: false,
+            enq_open: vec![false; k],
+            handed: vec![vec![]; k],
+            redisp: vec![0; k],
+            rets: vec![vec![]; k],
+            saw_closed: false,
+            sender_steps_while_closed: 0,
+            failures: vec![],
+        }),
+        cv: Condvar::new(),
+        gate_tx,
+        gate_rx,
+        free_run: AtomicBool::new(false),
+        queue: queue.clone(),
+        rec: rec.clone(),
+    });
+    let mut joins: Vec<std::thread::JoinHandle<Option<BlockingHandle<RecRedisp>>>> = vec![];
+    for t in 0..n {
+        let b = std::thread::Builder::new().stack_size(256 * 1024);
+        let sh2 = sh.clone();
+        let jh = if t < k {
+            let (hint, _) = cfg.senders[t];
+            let sender = sender.clone();
+            let rec = rec.clone();
+            b.spawn(move || {
+                CTX.with(|c| *c.borrow_mut() = Some((t, sh2.clone())));
+                let r = std::panic::catch_unwind(std::panic::AssertUnwindSafe(|| {
+                    let res = sender.send(BlockingHintTask::new(HTask { id: t }, hint.real()));
+                    let text = match res {
+                        Ok(()) => "ret:ok".to_string(),
+                        Err(SenderBackendError::Retry(task)) => {
+                            let h = task.get_blocking_hint();
+                            let inner = task.into_inner();
+                            if inner.id == t && hint.same(h) {
+                                "ret:retry".to_string()
+                            } else {
+                                "ret:retry-corrupt".to_string()
+                            }
+                        }
+                        Err(e) => format!("ret:err:{:?}", e),
+                    };
+                    sh2.note(t, Note::Ret(text));
+                    // the backend's reply: the CounterTask is dropped
+                    let ct = rec.inflight.lock().expect("inflight").get_mut(t).and_then(|s| s.take());
+                    drop(ct);
+                }));
+                if r.is_err() {
+                    sh2.note(t, Note::Panic);
+                }
+                sh2.arrive(t, None);
+                CTX.with(|c| *c.borrow_mut() = None);
+                None
+            })
+        } else {
+            let prog = cfg.ctrls[t - k].clone();
+            let queue = queue.clone();
+            b.spawn(move || {
+                CTX.with(|c| *c.borrow_mut() = Some((t, sh2.clone())));
+                let mut handle: Option<BlockingHandle<RecRedisp>> = None;
+                let r = std::panic::catch_unwind(std::panic::AssertUnwindSafe(|| {
+                    for cmd in prog {
+                        match cmd {
+                            'S' => {
+                                if handle.is_none() {
+                                    sh2.note(t, Note::Cmd('S'));
+                                    handle = Some(queue.start_blocking());
+                                }
+                            }
+                            'P' => {
+                                sh2.note(t, Note::Cmd('P'));
+                                let b = queue.blocking_done();
+                                sh2.note(t, Note::Polled(b));
+                            }
+                            'D' => {
+                                if let Some(h) = handle.take() {
+                                    sh2.note(t, Note::Cmd('D'));
+                                    drop(h);
+                                }
+                            }
+                            _ => {
+                                sh2.note(t, Note::Cmd('R'));
+                                queue.stop_blocking();
+                            }
+                        }
+                    }
+                }));
+                if r.is_err() {
+                    sh2.note(t, Note::Panic);
+                }
+                sh2.arrive(t, None);
+                CTX.with(|c| *c.borrow_mut() = None);
+                // a handle that the program never drops stays alive until the end of the case
+                handle
+            })
+        };
+        joins.push(jh.unwrap_or_else(|e| harness_failure(&format!("spawn: {}", e))));
+    }
+    // every thread runs (thread-local code only) to its first scheduling point
+    for t in 0..n {
+        let mut core = sh.lock();
+        while !core.registered[t] {
+            let (c, to) = sh.cv.wait_timeout(core, STEP_TIMEOUT).unwrap_or_else(|e| e.into_inner());
+            core = c;
+            if to.timed_out() && !core.registered[t] {
+                harness_failure(&format!("thread {} did not reach its first scheduling point within {:?} ({})", cfg.tid_name(t), STEP_TIMEOUT, cfg.text()));
+            }
+        }
+    }
+    let init_line = {
+        let core = sh.lock();
+        let pos: Vec<String> = (0..n).map(|t| format!("{}@{}", cfg.tid_name(t), core.at[t].unwrap_or("end"))).collect();
+        drop(core);
+        format!("ok at={} {}", pos.join(","), sh.globals().0)
+    };
+    // start the schedule
+    {
+        let mut core = sh.lock();
+        core.phase = Phase::Run;
+        let d = sh.decide(&mut core);
+        let wake = sh.apply(&mut core, d, None);
+        drop(core);
+        if let Some(u) = wake {
+            let _ = sh.gate_tx[u].send(());
+        }
+    }
+    // wait for the end of the case; no progress for STEP_TIMEOUT = harness failure
+    {
+        let mut core = sh.lock();
+        let mut seen = (core.steps.len(), core.live);
+        loop {
+            let finished = core.phase == Phase::Done || (core.phase == Phase::Abandoned && core.live == 0);
+            if finished {
+                break;
+            }
+            let (c, to) = sh.cv.wait_timeout(core, STEP_TIMEOUT).unwrap_or_else(|e| e.into_inner());
+            core = c;
+            let now = (core.steps.len(), core.live);
+            if to.timed_out() && now == seen {
+                let sched: Vec<String> = core.lines.iter().map(|(o, l)| format!("{}:{}", o, l)).collect();
+                harness_failure(&format!(
+                    "no thread reached a scheduling point within {:?} ({}; running: {:?}; schedule so far: {})",
+                    STEP_TIMEOUT,
+                    cfg.text(),
+                    core.running.map(|t| cfg.tid_name(t)),
+                    sched.join(" ; ")
+                ));
+            }
+            seen = now;
+        }
+    }
+    let mut leaked = vec![];
+    let mut extra_failures: Vec<(String, &'static str)> = vec![];
+    for h in joins {
+        match h.join() {
+            Ok(Some(handle)) => leaked.push(handle),
+            Ok(None) => {}
+            Err(_) => extra_failures.push(("a harness thread panicked outside the code under test".to_string(), "")),
+        }
+    }
+    let mut core = sh.lock();
+    core.failures.extend(extra_failures);
+    // events of an abandoned (free-running) tail count for the end-of-case oracle only
+    let evs: Vec<Ev> = std::mem::take(&mut *rec.events.lock().expect("events"));
+    for e in evs {
+        match e {
+            Ev::Handed(i, ok) => {
+                if let Some(h) = core.handed.get_mut(i) {
+                    h.push(ok);
+                }
+            }
+            Ev::Redisp(u) => {
+                if let Some(r) = core.redisp.get_mut(u) {
+                    *r += 1;
                 }
             }
         }
-        let (_, _, blk) = self.globals();
-        // flush what is still queued (scheduler thread: hooks pass through)
-        self.queue.stop_blocking();
-        let evs: Vec<Ev> = std::mem::take(&mut *self.rec.events.lock().expect("events"));
-        let mut leftover = vec![0u32; k];
-        for e in evs {
-            if let Ev::Redisp(u) = e {
-                if let Some(l) = leftover.get_mut(u) {
-                    *l += 1;
-                }
+    }
+    // ---- end-of-case oracle ----
+    let (_, _, blk) = sh.globals();
+    // flush what is still queued (main thread: hooks pass through)
+    queue.stop_blocking();
+    let evs: Vec<Ev> = std::mem::take(&mut *rec.events.lock().expect("events"));
+    let mut leftover = vec![0u32; k];
+    for e in evs {
+        if let Ev::Redisp(u) = e {
+            if let Some(l) = leftover.get_mut(u) {
+                *l += 1;
             }
         }
-        if !blk && leftover.iter().any(|l| *l > 0) {
-            self.failures.push((
-                format!("no-loss: tasks {:?} were still queued after all threads finished with no blocker alive",
-                    leftover.iter().enumerate().filter(|(_, l)| **l > 0).map(|(i, _)| i).collect::<Vec<_>>()),
+    }
+    if !blk && leftover.iter().any(|l| *l > 0) {
+        core.failures.push((
+            format!(
+                "no-loss: tasks {:?} were still queued after all threads finished with no blocker alive",
+                leftover.iter().enumerate().filter(|(_, l)| **l > 0).map(|(i, _)| i).collect::<Vec<_>>()
+            ),
+            "",
+        ));
+    }
+    for i in 0..k {
+        let h = core.handed[i].clone();
+        let r = core.redisp[i];
+        let l = leftover[i];
+        let ok = match core.rets[i].as_slice() {
+            [s] if s == "ret:ok" => (h.as_slice() == [true] && r == 0 && l == 0) || (h.is_empty() && r + l == 1),
+            [s] if s == "ret:retry" => (h.as_slice() == [false] || h.is_empty()) && r == 0 && l == 0,
+            _ => false,
+        };
+        if !ok {
+            let rets = core.rets[i].clone();
+            core.failures.push((
+                format!(
+                    "exactly-once: task {} returned {:?}, handed {:?}, re-dispatched {} time(s), left in queue {}",
+                    i, rets, h, r, l
+                ),
                 "",
             ));
         }
-        for i in 0..k {
-            let h = &self.handed[i];
-            let r = self.redisp[i];
-            let l = leftover[i];
-            let ok = match self.rets[i].as_slice() {
-                [s] if s == "ret:ok" => {
-                    (h.as_slice() == [true] && r == 0 && l == 0) || (h.is_empty() && r + l == 1)
-                }
-                [s] if s == "ret:retry" => (h.as_slice() == [false] || h.is_empty()) && r == 0 && l == 0,
-                _ => false,
-            };
-            if !ok {
-                self.failures.push((
-                    format!(
-                        "exactly-once: task {} returned {:?}, handed {:?}, re-dispatched {} time(s), left in queue {}",
-                        i, self.rets[i], h, r, l
-                    ),
-                    "",
-                ));
-            }
-        }
-        drop(leaked);
-        let (_, done, blk2) = self.globals();
-        if !done || blk2 {
-            self.failures.push((format!("end of case: running_cmd != 0 or count != 0 after every thread finished and every handle was dropped (done={} blocking={})", done, blk2), ""));
-        }
-        self.failures
+    }
+    drop(leaked);
+    let (_, done, blk2) = sh.globals();
+    if !done || blk2 {
+        core.failures.push((format!("end of case: running_cmd != 0 or count != 0 after every thread finished and every handle was dropped (done={} blocking={})", done, blk2), ""));
+    }
+    CaseOut {
+        init_line,
+        lines: std::mem::take(&mut core.lines),
+        steps: std::mem::take(&mut core.steps),
+        abandoned: core.abandoned,
+        saw_closed: core.saw_closed,
+        sender_steps_while_closed: core.sender_steps_while_closed,
+        handed: std::mem::take(&mut core.handed),
+        redisp: std::mem::take(&mut core.redisp),
+        rets: std::mem::take(&mut core.rets),
+        failures: std::mem::take(&mut core.failures),
     }
 }
 
@@ -772,61 +939,37 @@ struct RunResult {
     nontrivial: bool,
 }
 
-fn emit_case(
-    s: &mut Streams,
-    cfg: &Config,
-    mut choose: impl FnMut(&Exec, &[usize]) -> Option<usize>,
-) -> RunResult {
+fn emit_case(s: &mut Streams, cfg: &Config, chooser: Chooser) -> RunResult {
+    let out = run_case(cfg, chooser);
     let case = s.case();
-    let (mut ex, init_line) = Exec::start(cfg);
-    s.op(&cfg.text(), &init_line);
-    let mut steps = vec![];
+    s.op(&cfg.text(), &out.init_line);
     let mut replay = vec![cfg.text()];
-    loop {
-        let en = ex.enabled();
-        if en.is_empty() {
-            break;
-        }
-        let t = match choose(&ex, &en) {
-            Some(t) => t,
-            None => {
-                ex.abandon();
-                s.stats.count("out.abandoned_free_run");
-                break;
-            }
-        };
-        let out = ex.step(t);
-        let op = cfg.tid_text(t);
-        s.op(&op, &out.obs);
-        ex.log.push(format!("{}:{}", op, out.obs));
-        replay.push(op);
-        steps.push(t);
-        if steps.len() > 5000 {
-            harness_failure("schedule longer than 5000 steps (CAS livelock in the scheduler?)");
-        }
+    for (op, line) in &out.lines {
+        s.op(op, line);
+        replay.push(op.clone());
     }
-    let saw_closed = ex.saw_closed;
-    let sender_steps_closed = ex.sender_steps_while_closed;
-    let redisp_total: u32 = ex.redisp.iter().sum();
-    let handed_total: usize = ex.handed.iter().map(|h| h.len()).sum();
-    let retry_total = ex.rets.iter().filter(|r| r.iter().any(|x| x == "ret:retry")).count();
-    let failures = ex.finish();
-    s.stats.add("out.steps", steps.len() as u64);
+    if out.abandoned {
+        s.stats.count("out.abandoned_free_run");
+    }
+    let redisp_total: u32 = out.redisp.iter().sum();
+    let handed_total: usize = out.handed.iter().map(|h| h.len()).sum();
+    let retry_total = out.rets.iter().filter(|r| r.iter().any(|x| x == "ret:retry")).count();
+    s.stats.add("out.steps", out.steps.len() as u64);
     s.stats.add("out.handed", handed_total as u64);
     s.stats.add("out.redispatched", redisp_total as u64);
     s.stats.add("out.retry_returned", retry_total as u64);
-    if saw_closed {
+    if out.saw_closed {
         s.stats.count("out.barrier_observed_closed");
     }
-    if sender_steps_closed > 0 {
+    if out.sender_steps_while_closed > 0 {
         s.stats.count("out.sender_ran_while_closed");
     }
-    let nontrivial = (saw_closed && sender_steps_closed > 0) || redisp_total > 0;
+    let nontrivial = (out.saw_closed && out.sender_steps_while_closed > 0) || redisp_total > 0;
     if nontrivial {
         s.stats.nontrivial_case(&replay.join(";"));
     }
     let mut seen = BTreeSet::new();
-    for (what, finding) in failures {
+    for (what, finding) in out.failures {
         if finding == "F11a" {
             s.stats.count("out.finding_F11a");
         }
@@ -834,42 +977,53 @@ fn emit_case(
             s.stats.oracle_failure(case, &what, finding, replay.clone());
         }
     }
-    RunResult { steps, nontrivial }
+    RunResult { steps: out.steps, nontrivial }
+}
+
+struct Frame {
+    points: Vec<(usize, &'static str)>, // enabled threads and their next points
+    sleep: Vec<(usize, &'static str)>,
+    done: Vec<(usize, &'static str)>,
+    chosen: usize,
+}
+
+#[derive(Default)]
+struct DfsState {
+    stack: Vec<Frame>,
+    depth: usize,
+    blocked: bool,
 }
 
 /// stateless DFS with sleep sets over all schedules of `cfg`; at most `cap` executions
 fn dfs(s: &mut Streams, cfg: &Config, cap: u64) -> (u64, bool) {
-    struct Frame {
-        points: Vec<(usize, &'static str)>, // enabled threads and their next points
-        sleep: Vec<(usize, &'static str)>,
-        done: Vec<(usize, &'static str)>,
-        chosen: usize,
-    }
-    let mut stack: Vec<Frame> = vec![];
+    let state = Arc::new(Mutex::new(DfsState::default()));
     let mut runs = 0u64;
     loop {
         // one execution: follow the stack, then extend it
-        let mut depth = 0usize;
-        let mut blocked = false;
         {
-            let stack_ref = &mut stack;
-            let blocked_ref = &mut blocked;
-            let depth_ref = &mut depth;
-            emit_case(s, cfg, |ex, en| {
-                let d = *depth_ref;
-                *depth_ref += 1;
-                if *blocked_ref {
+            let mut st = state.lock().expect("dfs");
+            st.depth = 0;
+            st.blocked = false;
+        }
+        let st2 = state.clone();
+        emit_case(
+            s,
+            cfg,
+            Box::new(move |at, en| {
+                let mut st = st2.lock().expect("dfs");
+                let d = st.depth;
+                st.depth += 1;
+                if st.blocked {
                     return None;
                 }
-                if d < stack_ref.len() {
-                    return Some(stack_ref[d].chosen);
+                if d < st.stack.len() {
+                    return Some(st.stack[d].chosen);
                 }
-                let points: Vec<(usize, &'static str)> =
-                    en.iter().map(|t| (*t, ex.at[*t].unwrap_or("end"))).collect();
+                let points: Vec<(usize, &'static str)> = en.iter().map(|t| (*t, at[*t].unwrap_or("end"))).collect();
                 let sleep: Vec<(usize, &'static str)> = if d == 0 {
                     vec![]
                 } else {
-                    let p = &stack_ref[d - 1];
+                    let p = &st.stack[d - 1];
                     let cp = p.points.iter().find(|x| x.0 == p.chosen).map(|x| x.1).unwrap_or("end");
                     p.sleep
                         .iter()
@@ -881,22 +1035,23 @@ fn dfs(s: &mut Streams, cfg: &Config, cap: u64) -> (u64, bool) {
                 let cand = points.iter().find(|(t, _)| !sleep.iter().any(|(u, _)| u == t)).map(|x| x.0);
                 match cand {
                     Some(t) => {
-                        stack_ref.push(Frame { points, sleep, done: vec![], chosen: t });
+                        st.stack.push(Frame { points, sleep, done: vec![], chosen: t });
                         Some(t)
                     }
                     None => {
                         // every enabled thread is asleep: this continuation is covered elsewhere
-                        *blocked_ref = true;
+                        st.blocked = true;
                         None
                     }
                 }
-            });
-        }
+            }),
+        );
         runs += 1;
-        s.stats.count(if blocked { "dfs.sleep_blocked_runs" } else { "dfs.complete_runs" });
+        let mut st = state.lock().expect("dfs");
+        s.stats.count(if st.blocked { "dfs.sleep_blocked_runs" } else { "dfs.complete_runs" });
         // backtrack
         loop {
-            let top = match stack.last_mut() {
+            let top = match st.stack.last_mut() {
                 Some(t) => t,
                 None => return (runs, true),
             };
@@ -915,7 +1070,7 @@ fn dfs(s: &mut Streams, cfg: &Config, cap: u64) -> (u64, bool) {
                     break;
                 }
                 None => {
-                    stack.pop();
+                    st.stack.pop();
                 }
             }
         }
@@ -928,17 +1083,25 @@ fn dfs(s: &mut Streams, cfg: &Config, cap: u64) -> (u64, bool) {
 fn random_case(s: &mut Streams, cfg: &Config, rng: &mut Rng) {
     let mode = rng.below(3);
     s.stats.count(match mode { 0 => "gen.sched.uniform", 1 => "gen.sched.sticky", _ => "gen.sched.ctrl_first" });
-    let mut last: Option<usize> = None;
     let k = cfg.senders.len();
-    emit_case(s, cfg, |_, en| {
-        let t = match mode {
-            1 if last.map(|l| en.contains(&l)).unwrap_or(false) && rng.chance(7, 10) => last.unwrap_or(en[0]),
-            2 if rng.chance(1, 2) => *en.iter().find(|t| **t >= k).unwrap_or(rng.pick(en)),
-            _ => *rng.pick(en),
-        };
-        last = Some(t);
-        Some(t)
-    });
+    let shared_rng = Arc::new(Mutex::new(rng.clone()));
+    let r2 = shared_rng.clone();
+    let mut last: Option<usize> = None;
+    emit_case(
+        s,
+        cfg,
+        Box::new(move |_, en| {
+            let mut rng = r2.lock().expect("rng");
+            let t = match mode {
+                1 if last.map(|l| en.contains(&l)).unwrap_or(false) && rng.chance(7, 10) => last.unwrap_or(en[0]),
+                2 if rng.chance(1, 2) => *en.iter().find(|t| **t >= k).unwrap_or(rng.pick(en)),
+                _ => *rng.pick(en),
+            };
+            last = Some(t);
+            Some(t)
+        }),
+    );
+    *rng = shared_rng.lock().expect("rng").clone();
 }
 
 fn gen_config(rng: &mut Rng, st: &mut Stats) -> Config {
@@ -1009,17 +1172,21 @@ fn replay_file(s: &mut Streams, path: &std::path::Path) {
     for (cfg, steps) in cases {
         s.stats.count("gen.replay");
         let mut i = 0usize;
-        emit_case(s, &cfg, |_, en| {
-            // follow the file while it names an enabled thread, then lowest thread first
-            while i < steps.len() {
-                let t = steps[i];
-                i += 1;
-                if en.contains(&t) {
-                    return Some(t);
+        emit_case(
+            s,
+            &cfg,
+            Box::new(move |_, en| {
+                // follow the file while it names an enabled thread, then lowest thread first
+                while i < steps.len() {
+                    let t = steps[i];
+                    i += 1;
+                    if en.contains(&t) {
+                        return Some(t);
+                    }
                 }
-            }
-            en.first().copied()
-        });
+                en.first().copied()
+            }),
+        );
     }
 }
 
